@@ -288,7 +288,9 @@ def run_property(prop, rules, doc, tier, explain=False, replay_key=None):
         "wall_s": round(time.time() - t0, 3),
         "violations": len(new_viol),
     }
-    edir = VERIF / "evidence"
+    # a run on a scratch copy (development: seeds, twins, rewrites) keeps its evidence next to that copy
+    scratch = os.environ.get("SNT_REPO") and Path(os.environ["SNT_REPO"]).resolve() != Path("/repo")
+    edir = (Path(os.environ["SNT_REPO"]) / ".snt_evidence") if scratch else VERIF / "evidence"
     edir.mkdir(exist_ok=True)
     (edir / f"{prop}.json").write_text(json.dumps(evidence, indent=1, default=str))
 
